@@ -161,7 +161,8 @@ def gen_scene(rng, sid, force=None):
         consts.append([cu, cv])
     return {'id': sid, 'levels': levels, 'lats': lats, 'lons': lons, 'taxis': taxis, 'wind': wind, 'dtype': dtype,
             'lat_desc': lat_desc, 'lev_desc': lev_desc, 'dir': force.get('dir', sid),
-            'date': rng.choice([d for d in DATES if d not in force.get('not_dates', ())]), 'u': us, 'v': vs,
+            'date': force.get('date') or rng.choice([d for d in DATES if d not in force.get('not_dates', ())]),
+            'u': us, 'v': vs,
             'const': consts if wind != 'varying' else None}
 
 
@@ -229,7 +230,7 @@ def gen_query(rng, sc, kind=None):
                 h += rng.choice([-360.0, 360.0])
     use_point = rng.random() < 0.5
     return {'kind': kind, 'hour': hour, 'lat': lat, 'lon': lon, 'alt': alt, 'tas': tas, 'h': h,
-            'use_point': use_point, 'decoy': rng.uniform(0.0, 360.0)}
+            'use_point': use_point, 'decoy': rng.uniform(0.0, 360.0), 'minute': rng.choice([0, 0, 7, 30, 59])}
 
 
 # ---------------------------------------------------------------------------------------------
@@ -291,7 +292,7 @@ def impl_query(chk: Check, sc, q):
     if w is None:
         w = _weather_cache[sc.get('dir', sc['id'])] = Weather(data_dir=d)
     day = pd.Timestamp(sc['date'], tz='UTC')
-    t = day + pd.Timedelta(hours=q['hour'], minutes=7 * (q['hour'] % 5))
+    t = day + pd.Timedelta(hours=q['hour'], minutes=q.get('minute', 7 * (q['hour'] % 5)))
     if q['use_point']:
         pt = GroundTrack.Point(Location(q['lon'], q['lat']), q['h'])
         kw = {}
@@ -348,9 +349,10 @@ def heading_used(q):
     return q['h'] % 360.0 if q['use_point'] else q['h']
 
 
-def coq_query(sc, q, exchanged: bool) -> str:
+def coq_query(sc, q, exchanged: bool, slice_=None) -> str:
     b = 'true' if exchanged else 'false'
-    return (f'@ground_speed FNum {b} file_{sc["id"]} {nat(slice_of(sc, q))} {coq_float(q["alt"])} '
+    sl = slice_of(sc, q) if slice_ is None else slice_
+    return (f'@ground_speed FNum {b} file_{sc["id"]} {nat(sl)} {coq_float(q["alt"])} '
             f'{coq_float(q["lat"])} {coq_float(q["lon"])} {coq_float(q["tas"])} {coq_float(heading_used(q))}')
 
 
@@ -364,6 +366,24 @@ def model_out(v):
 # extraction + link
 # ---------------------------------------------------------------------------------------------
 
+def extract_cache(chk: Check) -> bool:
+    """regenerate the cache configuration of Weather (_require_main_ds / _require_data) and check that it is one
+    for which the state machine provably serves the queried (day, hour).  -> True if Gen.C16_CacheCfg exists"""
+    from translator import c16_extract, py2coq
+    try:
+        text = c16_extract.extract_cache_cfg(REPO)
+    except py2coq.Untranslatable as e:
+        chk.obligations.append({'name': c16_extract.OB_CACHE, 'ok': False})
+        chk.broken(c16_extract.OB_CACHE, str(e))
+        return False
+    chk.obligations.append({'name': c16_extract.OB_CACHE, 'ok': True})
+    chk.notes['weather_cache_cfg'] = text.strip().splitlines()[-1]
+    if chk.coq_compile_gen('C16_CacheCfg', text) is None:
+        return False
+    chk.coq_link('C16_CacheLink.v')
+    return True
+
+
 def extract(chk: Check):
     """-> True (code has the exchanged decomposition), False (specified one), None (could not tell)"""
     from translator import c16_extract, py2coq
@@ -371,10 +391,12 @@ def extract(chk: Check):
     try:
         text = c16_extract.extract_c16(REPO)
     except py2coq.Untranslatable as e:
-        chk.obligations.append({'name': name, 'ok': False})
-        chk.broken(name, str(e))
+        nm = getattr(e, 'obligation', name)
+        chk.obligations.append({'name': nm, 'ok': False})
+        chk.broken(nm, str(e))
         return None
     chk.obligations.append({'name': name, 'ok': True})
+    chk.obligations.append({'name': c16_extract.OB_EDGE, 'ok': True})
     if chk.coq_compile_gen('C16_Extracted', text) is None:
         return None
     chk.coq_link('C16_Link.v')
@@ -500,7 +522,40 @@ def judge_rotation(chk: Check, a, b):
              {'scene': sa, 'q': qa, 'impl': ia, 'partner': {'scene': sb, 'q': qb, 'impl': ib}}, signature=sig)
 
 
-def process(chk: Check, cases, variant, pairs=()):
+HEADER_CACHE = ('From Coq Require Import ZArith List.\nFrom AV Require Import model.C16_CacheModel.\n'
+                'From Gen Require Import C16_CacheCfg.\nImport ListNotations.\n')
+
+
+def model_slices(chk: Check, cases, have_cfg: bool):
+    """Which file / slice each query reads ACCORDING TO THE STATE MACHINE regenerated from weather.py, run inside Coq
+    over the query sequence of every Weather object.  -> list of (scene, slice) per case, or None per case."""
+    if not have_cfg:
+        return [None] * len(cases)
+    dirs: dict = {}
+    for i, (sc, q) in enumerate(cases):
+        dirs.setdefault(sc.get('dir', sc['id']), []).append(i)
+    exprs, order = [], []
+    for dk, idxs in dirs.items():
+        days = {}
+        for i in idxs:
+            days[int(cases[i][0]['date'])] = cases[i][0]
+        tax = '[' + '; '.join(f'(({d})%Z, {"true" if s_["taxis"] == "dim24" else "false"})' for d, s_ in days.items()) + ']'
+        ts = '[' + '; '.join(f'mkT ({int(cases[i][0]["date"])})%Z ({cases[i][1]["hour"]})%Z '
+                             f'({cases[i][1].get("minute", 7 * (cases[i][1]["hour"] % 5))})%Z' for i in idxs) + ']'
+        exprs.append(f'run weather_cfg (lookup_taxis {tax}) empty {ts}')
+        order.append((idxs, days))
+    vals = chk.coq_eval(HEADER_CACHE, exprs, shard=40, label='cache')
+    out = [None] * len(cases)
+    for (idxs, days), v in zip(order, vals):
+        if v is None or len(v) != len(idxs):
+            continue
+        for i, u in zip(idxs, v):
+            if isinstance(u, tuple) and len(u) == 2 and u[0] in days:
+                out[i] = (days[u[0]], 0 if u[1] is None else int(u[1]))
+    return out
+
+
+def process(chk: Check, cases, variant, pairs=(), have_cfg=False):
     """cases: list of (scene, q). Runs implementation, model, oracle."""
     setup_config()
     scenes = {}
@@ -521,7 +576,10 @@ def process(chk: Check, cases, variant, pairs=()):
         Config.reset()
     exch = True if variant is None else variant
     hdr = HEADER + ''.join(coq_scene_def(s) for s in scenes.values())
-    model = chk.coq_eval(hdr, [coq_query(sc, q, exch) for sc, q in cases], shard=120)
+    reads = model_slices(chk, cases, have_cfg)
+    chk.count('model-slice-from-state-machine', sum(1 for r in reads if r is not None))
+    model = chk.coq_eval(hdr, [coq_query(sc, q, exch) if r is None else coq_query(r[0], q, exch, r[1])
+                               for (sc, q), r in zip(cases, reads)], shard=120)
     for (sc, q), io, mo, pr in zip(cases, impl, model, prior):
         W = 0.0 if sc['wind'] == 'zero' else 1.0
         nontriv = io[0] == 'ok' and W > 0 and q['tas'] > 0
@@ -573,14 +631,16 @@ def run(chk: Check):
                         'theorems are about the real-number semantics of the model text; rounding is covered only by '
                         'the 1e-9 correspondence', 'time axis, when present, has 24 hourly slices of the file\'s day']
     chk.coq_props('props/C16_Props.v')
+    chk.coq_props('props/C16_CacheProps.v')
     variant = extract(chk)
+    have_cfg = extract_cache(chk)
     chk.notes['code_reading'] = {True: 'exchanged (u_air = tas cos h, v_air = tas sin h) — F14 present',
                                  False: 'specified (east = tas sin h, north = tas cos h)',
                                  None: 'undetermined'}[variant]
     rng = chk.rng
     cases = load_corpus(chk)
     pairs = []
-    nscenes = chk.n(22, 90)
+    nscenes = chk.n(18, 70)
     per = chk.n(24, 32)
     sid = 1000
     for k in range(nscenes):
@@ -601,6 +661,7 @@ def run(chk: Check):
                 sid += 1
                 group.append(sib)
         budget = per if len(group) == 1 else int(per * 1.6)
+        first_case = len(cases)
         while budget > 0:
             if len(group) > 1 and rng.random() < 0.45:
                 a, b = rng.sample(group, 2)
@@ -614,6 +675,22 @@ def run(chk: Check):
                 g = rng.choice(group)
                 cases.append((g, gen_query(rng, g)))
                 budget -= 1
+        if rng.random() < 0.25:
+            # a second Weather object (another directory) with files of the SAME dates and grid but other winds, queried
+            # alternately with the first one at the same times: state shared between Weather objects would show
+            mdir = sid
+            mirror = {}
+            for g in group:
+                mirror[g['id']] = gen_scene(rng, sid, {'grid': (g['levels'], g['lats'], g['lons'], g['lat_desc'], g['lev_desc']),
+                                                       'dir': mdir, 'date': g['date'], 'taxis': g['taxis'],
+                                                       'wind': rng.choice(['uniform', 'varying'])})
+                sid += 1
+            inter = []
+            for g, q in cases[first_case:]:
+                q2 = dict(gen_query(rng, mirror[g['id']], 'inside'), hour=q['hour'], minute=q.get('minute', 0))
+                inter += [(g, q), (mirror[g['id']], q2)]
+            cases[first_case:] = inter
+            chk.count('directories-mirrored-by-a-second-weather-object')
         if sc['wind'] == 'uniform':
             # rotation pairs: same grid, wind rotated by d; heading h and h + d
             for _ in range(3):
@@ -624,12 +701,14 @@ def run(chk: Check):
                 qb = dict(qa, h=qa['h'] + d)
                 pairs.append((len(cases), len(cases) + 1))
                 cases += [(sc, qa), (rs, qb)]
-    process(chk, cases, variant, pairs)
+    process(chk, cases, variant, pairs, have_cfg)
 
 
 def replay(chk: Check, rp):
     chk.coq_props('props/C16_Props.v')
+    chk.coq_props('props/C16_CacheProps.v')
     variant = extract(chk)
+    have_cfg = extract_cache(chk)
     case = rp.get('case') or {}
     if 'scene' not in case or 'levels' not in case['scene'] or 'u' not in case['scene']:
         chk.broken('replay', 'replay file carries no self-contained case (broken obligation: re-run the check)')
@@ -639,4 +718,4 @@ def replay(chk: Check, rp):
     if case.get('partner'):
         cases.append((case['partner']['scene'], case['partner']['q']))
         pairs = [(len(cases) - 2, len(cases) - 1)]
-    process(chk, cases, variant, pairs)
+    process(chk, cases, variant, pairs, have_cfg)
